@@ -248,7 +248,20 @@ def param_sync_rule(prog, res):
             # parameter positions differ inside a helper: compare modulo the argument index
             norm = lambda x: re.sub(r'arg\d\.size', 'argN.size', x)
             good = ({norm(x) for x in got} == {norm(x) for x in wantset}) if role == 'points' else ({norm(x) for x in got} <= {norm(x) for x in wantset} and len(got) >= 3)
+        # the declared-labels source is for the empty data set only: once a frame is stored the data is the ground truth
+        weak = None
         if good:
+            import indexsites as _IS
+            FRS = 'this._data._frames.size'
+            for n in fh.all_nodes({'BinaryOperator'}):
+                if n['op'] == '=' and Rh.render(n['ch'][0]) == lname and 'valuesAsString().size' in Rh.render(n['ch'][1]):
+                    fa = [(op_, r_) for l_, op_, r_, _x in _IS.facts_at(fh, Rh, n['id']) if l_ == FRS]
+                    if fa and not any(x_ in (('==', '0'), ('<=', '0'), ('<', '1')) for x_ in fa):
+                        weak = (n['id'], ' and '.join('%s %s' % x_ for x_ in fa))
+        if good and weak:
+            res.viol('param-sync', inst, fh.loc(weak[0]), 'the %s count is taken from the declared labels whenever frames.size %s: with a stored frame the data, not the label list, is the ground truth' % (role[:-1], weak[1]),
+                     function=f0.sig, expr=expr_)
+        elif good:
             res.ok('param-sync', inst, fh.loc(), okd, function=f0.sig, expr=expr_)
         elif got and all(g_.startswith('this.') or g_.startswith('(') or g_ in ('0', '(unsigned long)0') for g_ in got):
             res.viol('param-sync', inst, fh.loc(), '%s count is computed from %s' % (role[:-1], sorted(got)), function=f0.sig, expr=expr_)
@@ -448,4 +461,7 @@ def run(prog, tier):
     # points in each frame = POINT:USED needs every frame to receive the same columns
     import p_c06
     p_c06.column_rules(prog, res, rule='column-uniform')
+    # the header fields are brought into agreement through the header's own setters
+    import setters
+    setters.rule(prog, res, {'ezc3d::Header'}, rule_name='header-setters', minimum=4)
     return res
